@@ -218,7 +218,9 @@ pub fn family() -> Vec<Member> {
                     for d in 0..6 {
                         for gform in 0..2 {
                             for outer in 0..3 {
-                                out.push(member(kind, linked, t, wrapper, d, gform, outer));
+                                for extra in 0..3 {
+                                    out.push(member(kind, linked, t, wrapper, d, gform, outer, extra));
+                                }
                             }
                         }
                     }
@@ -229,7 +231,8 @@ pub fn family() -> Vec<Member> {
     out
 }
 
-fn member(kind: &str, linked: bool, t: T, wrapper: usize, d: usize, gform: usize, outer: usize) -> Member {
+/// `extra`: 0 = `f x`, 1 = `f x z` (an unused second parameter AFTER `x`), 2 = `f z x` (before)
+fn member(kind: &str, linked: bool, t: T, wrapper: usize, d: usize, gform: usize, outer: usize, extra: usize) -> Member {
     // what stands in `a`'s place inside the link
     let fun = link(kind, v("a"), t).3;
     let inner = if linked { v("a") } else { garg(fun, t, 2) };
@@ -268,24 +271,30 @@ fn member(kind: &str, linked: bool, t: T, wrapper: usize, d: usize, gform: usize
             let_("g", g_lam.clone(), dexpr)
         };
         let fbody = pre.iter().rev().fold(with_g, |acc, (n, e)| let_(n, e.clone(), acc));
+        let (params, args): (Vec<&str>, Vec<Expr>) = match extra {
+            0 => (vec!["x"], vec![arg.clone()]),
+            1 => (vec!["x", "z"], vec![arg.clone(), Expr::Int(2)]),
+            _ => (vec!["z", "x"], vec![Expr::Int(2), arg.clone()]),
+        };
         match outer {
-            0 => Expr::LetFun("f".into(), vec!["x".into()], b(fbody), b(app(v("f"), vec![arg.clone()]))),
-            1 => let_("f", lam(&["x"], fbody), app(v("f"), vec![arg.clone()])),
-            _ => app(lam(&["x"], fbody), vec![arg.clone()]),
+            0 => Expr::LetFun("f".into(), params.iter().map(|s| s.to_string()).collect(), b(fbody), b(app(v("f"), args))),
+            1 => let_("f", lam(&params, fbody), app(v("f"), args)),
+            _ => app(lam(&params, fbody), args),
         }
     };
     let expr = build(dexpr.clone());
     let expanded = build(subst_g(&dexpr, &g_lam));
     Member {
         shape: format!(
-            "{}:{}:{}:w{}:d{}:g{}:o{}",
+            "{}:{}:{}:w{}:d{}:g{}:o{}:x{}",
             kind,
             if linked { "linked" } else { "unlinked" },
             if t == T::Int { "int" } else { "str" },
             wrapper,
             d,
             gform,
-            outer
+            outer,
+            extra
         ),
         expr,
         expanded,
